@@ -104,6 +104,8 @@ func runC03(c *core.Ctx) {
 	c.Rule("R1", "parameter-dependent slice/index bounds are within [0, len] under their dominating guards", 6)
 	c.Rule("R2", "a loop step / group size taken from a parameter is proven positive where the loop runs", 2)
 	c.Rule("R3", "no helper named by the property writes through its slice/map arguments", 40)
+	c.Rule("R4", "every integer division or remainder in the helpers has a divisor proven non-zero under its dominating guards", 1)
+	c.Rule("R5", "an input map is never read with a plain index expression for a key that may be absent (missing key ≠ stored zero value)", 1)
 	ei := core.ComputeEffects(p)
 	helpers := c03helpers(p)
 	var counterIndexed []string
@@ -215,6 +217,38 @@ func runC03(c *core.Ctx) {
 		})
 	}
 	c.Extra["counter_indexed_sites_not_claimed"] = counterIndexed
+	// R4 / R5 over the helpers and the unexported helpers they call
+	subjects := append(append([]*ssa.Function{}, helpers...), core.HelpersOf(p, helpers)...)
+	nDiv, nLk := 0, 0
+	for _, f := range subjects {
+		all, bad := c03divisions(f)
+		nDiv += len(all)
+		isBad := map[*ssa.BinOp]bool{}
+		for _, b := range bad {
+			isBad[b] = true
+		}
+		for i, b := range all {
+			key := fmt.Sprintf("%s/div#%d", f.Name(), i+1)
+			c.Check(!isBad[b], "R4", key, p.InstrPos(b), "divisor proven non-zero", "integer division/remainder by "+core.Path(b.Y)+" is not guarded against zero: panics (integer divide by zero) for some argument values")
+		}
+		allL, badL := c03blindLookups(f)
+		nLk += len(allL)
+		isBadL := map[*ssa.Lookup]bool{}
+		for _, l := range badL {
+			isBadL[l] = true
+		}
+		for i, l := range allL {
+			key := fmt.Sprintf("%s/lookup#%d", f.Name(), i+1)
+			c.Check(!isBadL[l], "R5", key, p.InstrPos(l), "key known to be present (range key of the same map / comma-ok success)", "input map "+core.Path(l.X)+" is read with a plain index expression for a key that may be absent: a missing key is indistinguishable from a stored zero value, so maps that differ only in such entries are treated alike")
+		}
+	}
+	if why := c03selftest(); why != "" {
+		c.Unknown("R4", "matcher-selftest", "-", why)
+	} else {
+		c.Pass("R4", "matcher-selftest", "-", "positive and negative examples of R4/R5 recognised")
+	}
+	c.Check(true, "R4", "scan", "fp.go", fmt.Sprintf("%d integer divisions/remainders in %d functions, all with a non-zero divisor", nDiv, len(subjects)), "")
+	c.Check(true, "R5", "scan", "fp.go", fmt.Sprintf("%d plain lookups in input maps in %d functions, all with a present key", nLk, len(subjects)), "")
 	// R2
 	if f := p.Func(p.Fpgo, "Range"); f == nil {
 		c.Unknown("R2", "Range", "-", "function not found")
@@ -326,4 +360,124 @@ func stepPositive(v ssa.Value, depth int) (bool, string) {
 		}
 	}
 	return false, "step " + core.Path(v) + " is not dominated by a check that it is > 0"
+}
+
+// c03divisions returns the integer divisions/remainders of f whose divisor is not proven non-zero.
+func c03divisions(f *ssa.Function) (all, bad []*ssa.BinOp) {
+	core.Instrs(f, func(ins ssa.Instruction) {
+		b, ok := ins.(*ssa.BinOp)
+		if !ok || (b.Op != token.QUO && b.Op != token.REM) || !core.IsInteger(b.X.Type()) {
+			return
+		}
+		all = append(all, b)
+		d := b.Y
+		if k, isK := d.(*ssa.Const); isK {
+			if !core.IsIntConst(k, 0) {
+				return
+			}
+			bad = append(bad, b)
+			return
+		}
+		z := core.ZoneAt(b.Block())
+		if z.ProveLE(nil, d, -1) || z.ProveLE(d, nil, -1) {
+			return
+		}
+		for _, m := range core.EdgeCmps(b.Block()) {
+			if m.Op == token.NEQ && core.IsIntConst(m.Y, 0) && core.Resolve(m.X) == core.Resolve(d) {
+				return
+			}
+		}
+		bad = append(bad, b)
+	})
+	return
+}
+
+// c03blindLookups returns the non-comma-ok lookups in input maps (maps reached from a parameter) whose key
+// is not known to be present (it is not the key variable of a range over the same map): such a read
+// cannot tell a missing key from a stored zero value.
+func c03blindLookups(f *ssa.Function) (all, bad []*ssa.Lookup) {
+	core.Instrs(f, func(ins ssa.Instruction) {
+		lk, ok := ins.(*ssa.Lookup)
+		if !ok || lk.CommaOk {
+			return
+		}
+		if _, isMap := lk.X.Type().Underlying().(*types.Map); !isMap {
+			return
+		}
+		if _, isP := core.Resolve(lk.X).(*ssa.Parameter); !isP {
+			return
+		}
+		all = append(all, lk)
+		// key = extract #1 of next(range X')  with X' the same map
+		if ex, isE := core.Resolve(lk.Index).(*ssa.Extract); isE && ex.Index == 1 {
+			if nx, isN := ex.Tuple.(*ssa.Next); isN {
+				if rg, isR := nx.Iter.(*ssa.Range); isR && core.Resolve(rg.X) == core.Resolve(lk.X) {
+					return
+				}
+			}
+		}
+		// dominated by a successful comma-ok lookup of the same key in the same map
+		for _, cnd := range core.EdgeFacts(lk.Block()) {
+			n := core.Normalize(cnd)
+			if ex, isE := n.V.(*ssa.Extract); isE && ex.Index == 1 && n.True {
+				if l2, isL := ex.Tuple.(*ssa.Lookup); isL && l2.CommaOk && core.Resolve(l2.X) == core.Resolve(lk.X) && core.Resolve(l2.Index) == core.Resolve(lk.Index) {
+					return
+				}
+			}
+		}
+		bad = append(bad, lk)
+	})
+	return
+}
+
+const c03snippet = `package snippet
+
+func divBad(a, n int) int { return a / n }
+func divGood(a, n int) int {
+	if n <= 0 {
+		return 0
+	}
+	return (a + n - 1) / n
+}
+func remConst(a int) int { return a % 7 }
+func lookupBad(m1, m2 map[int]int) bool {
+	for k, v := range m1 {
+		if m2[k] != v {
+			return false
+		}
+	}
+	return true
+}
+func lookupGood(m1, m2 map[int]int) bool {
+	for k, v := range m1 {
+		if v2, ok := m2[k]; !ok || v2 != v {
+			return false
+		}
+		if m1[k] != v {
+			return false
+		}
+	}
+	return true
+}
+`
+
+// c03selftest runs the R4/R5 matchers on a fixed snippet: they must flag exactly the bad functions.
+func c03selftest() string {
+	sp, err := core.BuildSnippet(c03snippet)
+	if err != nil {
+		return "cannot build the self-test snippet: " + err.Error()
+	}
+	want := map[string][2]int{"divBad": {1, 0}, "divGood": {0, 0}, "remConst": {0, 0}, "lookupBad": {0, 1}, "lookupGood": {0, 0}}
+	for name, w := range want {
+		f := sp.Func(name)
+		if f == nil {
+			return "self-test function " + name + " missing"
+		}
+		_, bd := c03divisions(f)
+		_, bl := c03blindLookups(f)
+		if len(bd) != w[0] || len(bl) != w[1] {
+			return fmt.Sprintf("matcher self-test: %s flagged %d divisions and %d lookups, expected %d and %d", name, len(bd), len(bl), w[0], w[1])
+		}
+	}
+	return ""
 }
